@@ -94,6 +94,10 @@ def symisinstance(obj, cls):
         cls = back.get(cls, cls)
     if isinstance(obj, S):
         cl = cls if isinstance(cls, tuple) else (cls,)
+        if getattr(obj, 'npint', False):
+            # a numpy integer scalar (e.g. the result of Generator.integers): numpy.integer / numbers.Integral, but not int
+            import numbers
+            return any(c in (_np.integer, _np.int64, _np.signedinteger, _np.number, _np.generic, numbers.Integral, numbers.Number, S) for c in cl)
         if obj.e.is_integer and any(c in (int, _np.integer) for c in cl):
             return True
         if any(c in (float, _np.floating) for c in cl):
